@@ -322,6 +322,22 @@ def build_value(world, dom, name):
     if isinstance(dom, S.Abstract):
         fn = AbstractFn(world, dom, name)
         return fn, Decoder(lambda m: {'$abstract': dom.name})
+    if isinstance(dom, S.HeapCompiler):
+        from . import heapmodel as HM
+        cls = resolve_ref(world, 'pycel.excelcompiler:ExcelCompiler')
+        obj = SObj(cls, {'cycles': dom.cycles, 'cell_map': HM.SCellMap(), 'dep_graph': HM.SGraph(),
+                         'log': HM.Dummy()})
+        return obj, Decoder(lambda m: {'$heap_compiler': True})
+    if isinstance(dom, S.HeapCell):
+        from . import heapmodel as HM
+        n = z3.Const(name, HM.Node)
+        return HM.heap_cell(world.interp, n), Decoder(lambda m: {'$node': str(m.eval(n, model_completion=True))})
+    if isinstance(dom, S.OpaqueV):
+        from . import heapmodel as HM
+        t = z3.Const(name, HM.V)
+        if not dom.allow_none:
+            ex.assume(t != HM.NONE_V)
+        return HM.opaque(t), Decoder(lambda m: {'$value': str(m.eval(t, model_completion=True))})
     if isinstance(dom, S.Array):
         from .arrays import build_array
         return build_array(world, dom, name)
@@ -507,6 +523,10 @@ def sx_implies(interp, args, kwargs, node):
 # the verifier
 # ---------------------------------------------------------------------------
 
+class PathDone(Exception):
+    """the current path is complete (used by invariant loops after the inv-keep obligations)"""
+
+
 class Record_:
     """One discharged / failed / unknown query."""
 
@@ -550,8 +570,14 @@ class Verifier:
         self.world.external['pyvc.spec.forall_range'] = Builtin('forall_range', sx_forall_range)
         self.world.external['pyvc.spec.implies'] = Builtin('implies', sx_implies)
         self.world.external['pyvc.spec.same_call'] = Builtin('same_call', sx_same_call)
+        from . import heapmodel as _HM
+        for _n in ('cached', 'old_cached', 'same_value', 'value_is', 'succ', 'same_node', 'in_done', 'forall_nodes',
+                   'reads', 'computed', 'holds_f', 'old_holds_f', 'in_map', 'cell_at'):
+            self.world.external['pyvc.heapspec.' + _n] = Builtin(_n, getattr(_HM, 'sx_' + _n))
         self.ghost_calls = []
         self.modular_memo = {}
+        self.old_heaps = []
+        self.done_set = None
         self.contracts = {}       # target -> Contract
         self.active = None        # contract / lemma under verification
         self.modular = {}
@@ -599,6 +625,7 @@ class Verifier:
         sub.first_choice_seed = dict(outer.first_choice)
         sub.modular_memo_seed = dict(outer.modular_memo)
         sub.cell_reads_seed = list(outer.cell_reads)
+        sub.heap_seed = dict(outer.heap) if outer.heap is not None else None
         sub.fork_site = outer.fork_site
         sub.fork_counts = outer.fork_counts
         nbase = len(sub.base_pc)
@@ -629,6 +656,7 @@ class Verifier:
         sub.first_choice_seed = dict(outer.first_choice)
         sub.modular_memo_seed = dict(outer.modular_memo)
         sub.cell_reads_seed = list(outer.cell_reads)
+        sub.heap_seed = dict(outer.heap) if outer.heap is not None else None
         nbase = len(outer.pc)
         self.world.explorer = sub
         out = []
@@ -768,14 +796,26 @@ class Verifier:
         # same path give the same result
         mkey = (key, tuple(arg_key(v) for v in vals))
         memo = self.world.explorer.modular_memo      # per path: the result's ensures live in that path's pc
-        if getattr(c, 'pure', True) and mkey in memo:
+        if getattr(c, 'pure', True) and not getattr(c, 'heap', False) and mkey in memo:
             res = memo[mkey]
             self.ghost_calls.append((key, list(vals), res))
             return True, res
         res, _ = build_value(self.world, pick_alt(self.world, c.returns),
                              interp.ex.fresh_name(f'{c.name}.ret'))
-        for e in c.ensures:
-            self.assume_spec(e, vals + [res])
+        if getattr(c, 'heap', False):
+            # the callee may change the heap: forget it, keep the snapshot as `old` for its ensures
+            from . import heapmodel as HM
+            pre = dict(HM.heap_of(interp.ex))
+            interp.ex.heap = HM.fresh_heap(interp.ex, 'call')
+            self.old_heaps.append(pre)
+            try:
+                for e in c.ensures:
+                    self.assume_spec(e, vals + [res])
+            finally:
+                self.old_heaps.pop()
+        else:
+            for e in c.ensures:
+                self.assume_spec(e, vals + [res])
         self.world.trusted.add(f'modular: {key} used by its contract')
         self.ghost_calls.append((key, list(vals), res))
         memo[mkey] = res
@@ -869,6 +909,11 @@ class Verifier:
             for r in c.requires:
                 self.assume_spec(r, args)
             old = self.snapshot(args)
+            self.current_args = list(args)
+            if getattr(c, 'heap', False):
+                from . import heapmodel as HM
+                self.old_heaps = [dict(HM.heap_of(self.world.explorer))]
+                self.done_set = None
             if self.cache_model:
                 args = self.cache_alias(args, names)
             call_args, call_kwargs = self.bind_for_call(c, closure, names, args)
@@ -886,6 +931,9 @@ class Verifier:
                 outcome = ('return', result)
             except PyExc as e:
                 outcome = ('raise', e)
+            except PathDone:
+                # the path ended inside a loop body after its invariant obligations were recorded
+                return 'loop-iteration', list(self.records)
             finally:
                 self.in_body = False
             if outcome[0] == 'return':
